@@ -100,7 +100,11 @@ func Solve(script string, quantified bool, timeoutS int, seed int, all bool) *So
 	}
 	cfgs := solverConfigs(timeoutS, seed)
 	if quantified {
-		cfgs = []SolverCfg{cfgs[1], cfgs[2], cfgs[0]} // cvc5, cvc5 --enum-inst, z3 5.1
+		all := cfgs
+		cfgs = []SolverCfg{all[1], all[2], all[0]} // cvc5, cvc5 --enum-inst, z3 5.1
+		if strings.Contains(script, "(bvmul ") || strings.Contains(script, "(bvsdiv ") || strings.Contains(script, "(bvsrem ") || strings.Contains(script, "(bvudiv ") || strings.Contains(script, "(bvurem ") {
+			cfgs = append(cfgs, all[4]) // nonlinear bit-vector arithmetic: int-blasting
+		}
 	} else {
 		cfgs = []SolverCfg{cfgs[0], cfgs[1], cfgs[4], cfgs[3]} // z3 5.1, cvc5, cvc5 int-blast, z3 4.8
 	}
